@@ -447,10 +447,31 @@ fn trace_counting(
     non_root_list: &mut LinkedList,
     queue: &mut LinkedQueue,
 ) {
+    /// If a panic happens during tracing, the objects still inside possible_cycles may have already been
+    /// traced (incrementing their tracing counter). Reset it, since every object inside possible_cycles
+    /// is expected to have the tracing counter set to zero when the next collection starts.
+    struct ResetTracingCountersGuard<'a> {
+        possible_cycles: &'a PossibleCycles,
+    }
+
+    impl<'a> Drop for ResetTracingCountersGuard<'a> {
+        #[inline]
+        fn drop(&mut self) {
+            self.possible_cycles.iter().for_each(|ptr| {
+                unsafe { ptr.as_ref() }.counter_marker().reset_tracing_counter();
+            });
+        }
+    }
+
+    let reset_guard = ResetTracingCountersGuard { possible_cycles };
+
     while let Some(ptr) = possible_cycles.remove_first() {
         // The tracing counter has already been reset by add_to_list(...)
         __trace_counting(ptr, root_list, non_root_list, queue);
     }
+
+    // possible_cycles is now empty
+    mem::forget(reset_guard);
 
     while let Some(ptr) = queue.poll() {
         // The tracing counter has already been reset by CcBox::trace when ptr was inserted into the queue
